@@ -537,12 +537,14 @@ func (s *ConcurrentKV) PrepareSnapshot() (interface{}, error) {
 	defer atomic.AddInt32(&s.c.inPrepare, -1)
 	s.c.rec.hook("sm-prepare-enter", s.c.name)
 	defer s.c.rec.hook("sm-prepare-exit", s.c.name)
-	// PrepareSnapshot takes longer than one Update call: whatever is (wrongly) allowed
-	// to run beside it has finished by the time the image is captured
+	// PrepareSnapshot takes longer than one Update call, before and after it picks its
+	// point in time: whatever is (wrongly) allowed to run beside it shows up as a
+	// difference between the captured image and the index the snapshot is stamped with
+	s.c.widen()
+	img := s.c.image()
 	s.c.widen()
 	s.c.widen()
-	s.c.widen()
-	return s.c.image(), nil
+	return img, nil
 }
 func (s *ConcurrentKV) SaveSnapshot(ctx interface{}, w io.Writer, fc sm.ISnapshotFileCollection, stop <-chan struct{}) error {
 	s.c.enterShared("SaveSnapshot", &s.c.inSave)
@@ -621,12 +623,14 @@ func (s *OnDiskKV) PrepareSnapshot() (interface{}, error) {
 	defer atomic.AddInt32(&s.c.inPrepare, -1)
 	s.c.rec.hook("sm-prepare-enter", s.c.name)
 	defer s.c.rec.hook("sm-prepare-exit", s.c.name)
-	// PrepareSnapshot takes longer than one Update call: whatever is (wrongly) allowed
-	// to run beside it has finished by the time the image is captured
+	// PrepareSnapshot takes longer than one Update call, before and after it picks its
+	// point in time: whatever is (wrongly) allowed to run beside it shows up as a
+	// difference between the captured image and the index the snapshot is stamped with
+	s.c.widen()
+	img := s.c.image()
 	s.c.widen()
 	s.c.widen()
-	s.c.widen()
-	return s.c.image(), nil
+	return img, nil
 }
 func (s *OnDiskKV) SaveSnapshot(ctx interface{}, w io.Writer, stop <-chan struct{}) error {
 	s.c.enterShared("SaveSnapshot", &s.c.inSave)
